@@ -55,15 +55,23 @@ def Series(params: SeriesParams) -> h.Module:
     unit_conns.update(m.bundle_ports)
 
     # Create the internal series-connected signals, and concatenate them with the series ports
-    i = m.add(h.Signal(name="i", width=params.nser - 1))
+    i = m.add(h.Signal(name=_unused_name(m, "i"), width=params.nser - 1))
     unit_conns[series_conns[0].name] = h.Concat(series_conns[0], i)
     unit_conns[series_conns[1].name] = h.Concat(i, series_conns[1])
 
     # Create an array of unit instances
-    m.add(params.nser * params.unit(**unit_conns), name="units")
+    m.add(params.nser * params.unit(**unit_conns), name=_unused_name(m, "units"))
 
     # And return the module
     return m
+
+
+def _unused_name(m: h.Module, name: str) -> str:
+    """Get a name for a generator-created attribute of `m`: `name`, unless a (copied) port
+    already has it, in which case underscores are appended until it is free."""
+    while name in m.namespace:
+        name += "_"
+    return name
 
 
 def _copy_io(m: h.Module, unit: h.Instantiable) -> dict:
@@ -152,7 +160,7 @@ def Wrapper(m: h.Instantiable) -> h.Module:
     wrapper_io = _copy_io(wrapper, m)
 
     # Create the inner instance
-    wrapper.add(h.Instance(name="inner", of=m)(**wrapper_io))
+    wrapper.add(h.Instance(name=_unused_name(wrapper, "inner"), of=m)(**wrapper_io))
 
     # And return the wrapper
     return wrapper
